@@ -20,7 +20,7 @@ T=$(cd /repo && timeout 900 /venv/bin/python -m pytest -q -p no:cacheprovider te
 # 3. our check(s)
 RES=""
 for P in $PID ${4:-}; do
-  R=$(cd /verif && timeout 1500 ./check $P 2>&1 | grep -E "^(VIOLATION|OK|KNOWN)" | cut -c1-160 | tr '\n' '|')
+  R=$(cd /verif && VERIF_NO_EVIDENCE=1 timeout 1500 ./check $P 2>&1 | grep -E "^(VIOLATION|OK|KNOWN)" | cut -c1-160 | tr '\n' '|')
   RES="$RES $P: $R"
 done
 git -C /repo checkout -- .
